@@ -68,6 +68,28 @@ def replay(c):
     return ev
 
 
+def replay_envs(c):
+    """the instance as asked in a default process, and - for instances at the top of the tree - asked again in a process whose numpy
+    error state is strict (np.seterr(all="raise"), common in numeric applications): acceptance may not depend on it"""
+    ev = replay(c)
+    out = [ev]
+    if not c["hole"] and c["expect"] == "apply" and ev["outcome"] == "ok":
+        import numpy as np
+        ev2 = dict(ev)
+        ev2["env"] = "np-raise"
+        try:
+            with np.errstate(all="raise"):
+                rule = _RULES[(c["rule"], c["opt"])]
+                node = navigate(build_json(c["inp"]), c["path"])
+                ev2["applicable"] = bool(rule.can_apply_to(node))
+        except BaseException as e:  # noqa
+            ev2["applicable"] = False
+            ev2["outcome"] = "can_apply:" + type(e).__name__
+        if ev2["applicable"] != ev["applicable"] or ev2["outcome"] != ev["outcome"]:
+            out.append(ev2)
+    return out
+
+
 def run(ctx, cases=None):
     res = Result()
     if cases is None:
@@ -90,8 +112,8 @@ def run(ctx, cases=None):
         res.rule = "replay"
     from multiprocessing import Pool
     with Pool(16) as pool:
-        events = pool.map(replay, cases, chunksize=100)
-    send = [{k: v for k, v in e.items() if k != "printed"} for e in events]
+        events = [e for l in pool.map(replay_envs, cases, chunksize=100) for e in l]
+    send = [{k: v for k, v in e.items() if k not in ("printed", "env")} for e in events]
     fails, st = tlc.validate_sharded("TraceSchema", "TraceSchema.cfg", send, ctx.work, shard_size=max(200, len(send) // 48 + 1), timeout=2400)
     res.states += st["distinct"]; res.transitions += st["generated"]
     res.traces = len(events)
@@ -114,7 +136,7 @@ def run(ctx, cases=None):
         c = e["c"]
         ctxname = "top" if not c["hole"] else "ctx"
         res.violations.append(Violation("C08|%s|%s|%s" % (",".join(cl), c["sid"], c["opt"]),
-                                        "schema %s on %s at %s -> applicable=%s %s %r: %s" % (c["sid"], str(build_json(c["inp"])), c["path"], e["applicable"], e["outcome"], e.get("printed"), cl), c, cl))
+                                        "schema %s%s on %s at %s -> applicable=%s %s %r: %s" % (c["sid"], " [numpy error state: raise]" if e.get("env") else "", str(build_json(c["inp"])), c["path"], e["applicable"], e["outcome"], e.get("printed"), cl), c, cl))
     return res
 
 
